@@ -23,6 +23,8 @@ Definition r_step : rec0 -> _ -> _ :=
   @recurrent_step tens dens neur unit nkw xkw tt nkw0 (dense_step FN) (neuron_step FN) (neuron_spike FN)
      (dense_clear FN) (neuron_clear FN) (tzeros_like FN) (tadd FN).
 
+Definition compat0 (c : dens) (n : neur) : bool := shape_eqb (d_out FN c) (n_shape FN n).
+
 (* ---------- constructors used by the generated case terms ---------- *)
 Definition mk_dense (i o : list nat) (B : nat) (dt q : float) (W : list (list float)) (b : option (list float))
     (dl : option (nat * list (list nat))) : dens :=
@@ -95,7 +97,7 @@ Definition ser_rout (o : recurrent_op tens dens neur unit nkw xkw) (out : option
 Definition run_serial (c : dens) (n : neur) (t : option (tr FN)) (cn nn : Z)
     (ops : list (serial_op tens dens neur unit nkw xkw)) : tree :=
   run_from s_step ser_sout (fun S => ser_layer (s_layer S))
-    (Ok (serial_new tens dens neur c n (option_map (tr_fn FN) t) cn nn)) ops.
+    (serial_new tens dens neur compat0 c n (option_map (tr_fn FN) t) cn nn) ops.
 
 Definition cmb (m : option cmode) : list (Z * tens) -> res tens :=
   match m with
@@ -110,15 +112,15 @@ Definition cmb (m : option cmode) : list (Z * tens) -> res tens :=
 Definition run_biclique (cs : list (Z * dens * option (tr FN))) (ns : list (Z * neur * option (tr FN)))
     (m : option cmode) (ops : list (biclique_op tens dens neur unit nkw xkw)) : tree :=
   run_from b_step ser_bout (fun B => ser_layer (b_layer B))
-    (biclique_new tens dens neur
+    (biclique_new tens dens neur compat0
        (map (fun p => (fst p, option_map (tr_fn FN) (snd p))) cs)
        (map (fun p => (fst p, option_map (tr_fn FN) (snd p))) ns) (cmb m)) ops.
 
 Definition run_recurrent (cff clat cfb : dens) (nff nfb : neur) (tff tlat tfb : option (tr FN))
-    (ilat ifb : option itr) (ffc latc fbc ffn fbn : Z)
+    (ilat ifb : option itr) (ffc latc fbc ffn fbn : Z) (trainable : bool)
     (ops : list (recurrent_op tens dens neur unit nkw xkw)) : tree :=
   run_from r_step ser_rout
     (fun R => Nd [ser_layer (r_layer R); ser_option ser_tensor (r_fbs R)])
-    (recurrent_new tens dens neur cff clat cfb nff nfb
+    (recurrent_new tens dens neur compat0 cff clat cfb nff nfb
        (option_map (tr_fn FN) tff) (option_map (tr_fn FN) tlat) (option_map (tr_fn FN) tfb)
-       (option_map (itr_fn FN) ilat) (option_map (itr_fn FN) ifb) ffc latc fbc ffn fbn) ops.
+       (option_map (itr_fn FN) ilat) (option_map (itr_fn FN) ifb) ffc latc fbc ffn fbn trainable) ops.
